@@ -20,6 +20,7 @@ Apply(e) ==
     CASE e.ev = "reset"  -> PReset
       [] e.ev = "init"   -> PInitC(e.val, e.m)
       [] e.ev = "call"   -> PCall(e.id, e)
+      [] e.ev = "swapin" -> PSwapIn(e.id, e.in)
       [] e.ev = "swapcb" -> PSwapCb(e.id, e.in, e.out)
       [] e.ev = "valid"  -> PValid(e.id, e.v, e.res)
       [] e.ev = "ret"    -> PRet(e.id, e.res, e.val)
